@@ -151,11 +151,11 @@ func propC16(c *Ctx) {
 			// returns of a cached index: a return inside the loop over the cache entry
 			for _, b := range fn.Blocks {
 				ret, ok := b.Instrs[len(b.Instrs)-1].(*ssa.Return)
-				if !ok || len(ret.Results) != 1 {
+				if !ok || len(ret.Results) == 0 {
 					continue
 				}
-				// derived from an element of the cached slice?
-				if !derivesFrom(ret.Results[0], func(v ssa.Value) bool {
+				// derived from an element of the cached slice? (the index may come back with a "found" flag)
+				if !derivesFrom(returnedValue(ret, 0), func(v ssa.Value) bool {
 					lk, ok := v.(*ssa.Lookup)
 					if !ok {
 						return false
